@@ -435,6 +435,25 @@ pub fn run(cfg: &Cfg) -> Report {
       if finite != itext.is_ok() {
         rep.disagree(Kind::ImplVsModel, "from_str", "from_str Ok/Err differs from the finiteness of ofString", t, &format!("{:?}", itext), &l[1].to_string());
       }
+      // typed input: `xsd:integer`, `xsd:decimal` and `xsd:double` texts are read by the same conversion and
+      // denote exactly the written number (no detour through binary floating point)
+      for (kind, conv) in [
+        ("xsd:integer", dmntk_feel::values::Value::try_from_xsd_integer as fn(&str) -> dmntk_common::Result<dmntk_feel::values::Value>),
+        ("xsd:decimal", dmntk_feel::values::Value::try_from_xsd_decimal),
+        ("xsd:double", dmntk_feel::values::Value::try_from_xsd_double),
+      ] {
+        let got = guarded(|| match conv(t) {
+          Ok(dmntk_feel::values::Value::Number(n)) => Ok(n.to_string()),
+          Ok(other) => Ok(format!("not a number: {}", other)),
+          Err(_) => Err(()),
+        });
+        rep.hit("from_str:xsd");
+        match got {
+          Ok(g) if g == itext => {}
+          Ok(g) => rep.disagree(Kind::ImplVsSpec, "from_str", &format!("typed input {} does not denote exactly the written number", kind), t, &format!("{:?}", g), &format!("{:?}", itext)),
+          Err(p) => rep.disagree(Kind::ImplVsSpec, "from_str", &format!("typed input {} panics", kind), t, &p, "Ok or Err"),
+        }
+      }
       if let Ok(it) = itext {
         let mt = decode_text(&l[2]);
         if mt.as_deref() != Some(it.as_str()) {
